@@ -550,6 +550,12 @@ def run(ctx):
         outcomes += o
         complete = complete and comp
         res.merge_violations(viol)
+    # a solver copied mid-run (deepcopy / pickle): iterating the copy never changes the original
+    from mc import copyrun
+    ctasks = copyrun.tasks(th)
+    for t, msgs in zip(ctasks, pmap(copyrun.case_c12, ctasks, chunksize=4)):
+        for mm in msgs:
+            res.add_violation(dict(driver="copy", task=t, message=mm, sig={}))
     res.cov = dict(
         states=merges + scheds, transitions=merges + scheds, traces_validated_against_impl=merges + scheds,
         evaluations=merges + scheds, distinct_nontrivial=alt + balt,
@@ -569,6 +575,9 @@ def run(ctx):
 
 
 def replay(rec):
+    if rec["driver"] == "copy":
+        from mc import copyrun
+        return copyrun.case_c12(rec["task"])
     if rec["driver"] == "solo":
         out = fresh_solos([(rec["spec"], rec["ops"])])[_key(rec["spec"], rec["ops"])]
         return [f"solo run: {out['crash']}"] if isinstance(out, dict) else []
